@@ -360,5 +360,45 @@ def r07_8(ctx):
     ctx.findings[:] = [f for f in ctx.findings if not (f.rule == ctx._rule and f.construct in dropped)]
 
 
+TYPES5 = {"BOOL", "INT", "HEX", "STRING", "FLOAT"}
+
+
+def _types_mentioned(repo, modname: str, fn: ast.AST) -> Set[str]:
+    """type constants a function's tests mention, with set constants (_INT_HEX, _INT_HEX_FLOAT, ...) expanded"""
+    out: Set[str] = set()
+    for n in ast.walk(fn):
+        if isinstance(n, ast.Compare) and "orig_type" in ast.unparse(n.left):
+            for c in n.comparators:
+                for x in ast.walk(c):
+                    if isinstance(x, ast.Name):
+                        if x.id in TYPES5:
+                            out.add(x.id)
+                        else:
+                            v = repo.resolve_const(CORE, x.id)
+                            if v is not None:
+                                out |= {y.id for y in ast.walk(v) if isinstance(y, ast.Name) and y.id in TYPES5}
+    return out
+
+
+def r07_9(ctx):
+    """R07.9 every format sees every option: (a) the sdkconfig tree walk (and the other iterative walks) descend into every
+    node - the other generators iterate all defined symbols, so a pruned walk drops options from one format only; (b) the
+    header's alias-presence predicate knows all five types (an alias of a float option is in sdkconfig and CMake);
+    (c) auto.conf / sdkconfig are left untouched only when identical as a whole (C13 R13.1b) - a prefix comparison leaves
+    a stale tail in one output."""
+    from . import c13
+    from .common import delegate, tree_walk_complete
+    repo = ctx.repo
+    tree_walk_complete(ctx, [f"{CORE}:Kconfig._config_contents", f"{CORE}:Kconfig._min_config_contents_with_labels", f"{CORE}:Kconfig.node_iter"],
+                       "options below the skipped nodes disappear from sdkconfig while header, CMake, JSON and auto.conf still list them")
+    f = repo.func(f"{DEP}:DeprecatedOptions.deprecated_header_contents.<locals>._opt_defined")
+    ctx.analysed(f.qual)
+    got = _types_mentioned(repo, DEP, f.node)
+    construct = "DeprecatedOptions.deprecated_header_contents/_opt_defined knows all five types"
+    (ctx.ok(construct, f.loc(), types=sorted(got)) if got >= TYPES5 else
+     ctx.bad(construct, f"no case for {sorted(TYPES5 - got)}: aliases of such options are listed in sdkconfig and CMake but get no #define", f.loc()))
+    delegate(ctx, c13.r13_1b, lambda c: True)
+
+
 def rules():
-    return [("R07.1", r07_1, 13), ("R07.6", r07_6, 8), ("R07.2", r07_2, 3), ("R07.3", r07_3, 4), ("R07.5", r07_5, 3), ("R07.7", r07_7, 4), ("R07.8", r07_8, 2)]
+    return [("R07.9", r07_9, 6), ("R07.1", r07_1, 13), ("R07.6", r07_6, 8), ("R07.2", r07_2, 3), ("R07.3", r07_3, 4), ("R07.5", r07_5, 3), ("R07.7", r07_7, 4), ("R07.8", r07_8, 2)]
